@@ -205,6 +205,8 @@ def check_range(case, r):
         exp['checked_sub'] = [a0 - off, a1 - off] if a0 - off >= 0 else None
         exp['add'] = exp['add_assign'] = P(a1 + off <= M32, [a0 + off, a1 + off])
         exp['sub'] = exp['sub_assign'] = P(a0 - off >= 0, [a0 - off, a1 - off])
+        exp['add_ref'] = [exp['add']] * 3
+        exp['sub_ref'] = [exp['sub']] * 3
         if a0 < a1 and b0 < b1:
             # both non-empty: read as sets of offsets
             if a1 - 1 < b0:
@@ -225,6 +227,7 @@ def check_range(case, r):
         bounds = set(char_boundaries(text))
         ok = a1 <= len(data) and a0 in bounds and a1 in bounds
         exp['slice'] = exp['slice_string'] = P(ok, data[a0:a1].decode('utf-8') if ok else None)
+        exp['slice_mut'] = [exp['slice']] * 2
         exp['into_range'] = [a0, a1]
         exp['from_range'] = [a0, a1]
         # the same set of offsets through std's RangeBounds (generic code, BTreeMap::range): start included, end excluded
@@ -236,6 +239,9 @@ def check_range(case, r):
     exp['ts_checked_sub'] = a0 - b0 if a0 >= b0 else None
     exp['ts_add'] = P(a0 + b0 <= M32, a0 + b0)
     exp['ts_sub'] = P(a0 >= b0, a0 - b0)
+    exp['ts_add_ref'] = [exp['ts_add']] * 3
+    exp['ts_sub_ref'] = [exp['ts_sub']] * 3
+    exp['ts_add_assign'], exp['ts_sub_assign'] = exp['ts_add'], exp['ts_sub']
     exp['ts_cmp'] = 'Less' if a0 < b0 else ('Greater' if a0 > b0 else 'Equal')
     exp['ts_to_u32'] = exp['ts_to_usize'] = exp['ts_new'] = a0
     exp['ts_sum'] = P(a0 + b0 + off <= M32, a0 + b0 + off)
